@@ -412,6 +412,8 @@ Freeze(h, v, d) ==
                                     IF ~r.ok THEN r ELSE go(r.h, i + 1, Append(acc, r.v))
              r == go(h, 1, <<>>)
          IN IF ~r.ok THEN r
+            \* an already-immutable array whose elements needed no freezing is returned as it is
+            ELSE IF v.imm /\ r.v = ArrElems(h, v) THEN Ok(r.h, v)
             ELSE LET h2 == NewStore(r.h, r.v) IN Ok(h2, VArr(TRUE, Len(h2.stores), 0, v.len))
     [] v.k = "map" ->
          LET t == TableOf(h, v)
@@ -420,7 +422,9 @@ Freeze(h, v, d) ==
                                ELSE LET r == Freeze(hh, t[i].val, d + 1) IN
                                     IF ~r.ok THEN r ELSE go(r.h, i + 1, Append(acc, [key |-> t[i].key, val |-> r.v]))
              r == go(h, 1, <<>>)
-         IN IF ~r.ok THEN r ELSE LET h2 == NewTable(r.h, r.v) IN Ok(h2, VMap(TRUE, Len(h2.tables)))
+         IN IF ~r.ok THEN r
+            ELSE IF v.imm /\ r.v = t THEN Ok(r.h, v)
+            ELSE LET h2 == NewTable(r.h, r.v) IN Ok(h2, VMap(TRUE, Len(h2.tables)))
     [] OTHER -> Ok(h, v)
 
 \* Host input values arrive as trees (exchange format); Intern materialises them in the heap.
